@@ -175,7 +175,7 @@ def part_genex(chk: Check, ex: ProcessPoolExecutor, tmp: T.Any) -> None:
 
 def fold_signature(v: T.Dict[str, T.Any], c: T.Dict[str, T.Any]) -> str:
     fmt = c['fmt'].split('-')[0]
-    return f"fold:{fmt}:{v['clause']}:{v['what']}@{v['shape']}"
+    return f"fold:{fmt}:{v['clause']}:{v['rule']}"
 
 
 def _fold_payload(cases: T.List[T.Dict[str, T.Any]], alphabet: T.Any, prelude: T.Any) -> T.Tuple[T.Any, int]:
